@@ -8,12 +8,15 @@
       b. Binding.bind vs CPython's own call binding on random `def` signatures
       c. the documented signatures of DocSigs.v vs the real builtins (which shapes are accepted)
       d. Frames.find_frame vs the real _find_originating_frame on real call stacks
+      e. Namespaces.run (handout read from the source: own mapping / copy) vs converted programs rendered from
+         traces of operations on the mapping returned by globals() / locals(); Namespaces.spec_run vs plain CPython
       + the list of builtins whose forwarding theorem does not apply (`nonconforming`), each with its
         refuting shapes, which are then run on the real overload
  4. property-level oracle on the real code: overload_of(b)(*a, **k) and converted_call(b, a, k) against
     b(*a, **k) over value families (equal value / equal item sequence with equal laziness / equal
     output / equal exception type); converted functions that call eval / locals / globals / super at
-    every nesting of functionalised loops and branches against the unconverted function
+    every nesting of functionalised loops and branches against the unconverted function; programs that write
+    through / compare / re-read the mapping returned by globals() and locals() (outcome and state left in the module)
 """
 import ast
 import contextlib
@@ -855,6 +858,312 @@ def run_super_direct(pb):
 
 
 # ----------------------------------------------------------------------------------------------
+# property-level oracle + correspondence: the mapping handed out by globals() / locals()
+# (Builtins/Namespaces.v).  A trace is a list of operations
+#   ('call', h) | ('set', r, k, v) | ('del', r, k) | ('get', r, k) | ('getname', k) | ('setname', k, v)
+#   | ('same', r1, r2) | ('isown', r)          r = ('var', h) | ('fresh',)
+# rendered as a Python function that returns the list of observations.  The generator keeps the
+# trace total under the semantics of the builtin (only handles already assigned, only names that are
+# bound), so plain Python never raises; whatever the converted function does differently is a finding.
+NS_G_INIT = [('NSV_a', 1), ('NSV_b', 2)]            # module level names present before the run
+NS_G_KEYS = ['NSV_a', 'NSV_b', 'NSV_c', 'NSV_d']
+NS_L_INIT = [('a', 1), ('b', 2)]                    # local variables of the rendered function
+NS_L_KEYS = ['a', 'b', 'zz']                        # 'zz' is a key that is no variable
+NS_WRAPPERS = [
+    ('if', 'if n > 0:\n'),
+    ('ifelse', "if n < 0:\n    obs.append('never')\nelse:\n"),
+    ('for', 'for i in range(n):\n'),
+    ('while', 'k = 0\nwhile k < n:\n    k = k + 1\n'),
+]
+
+
+def ns_trace(rnd, kind, length):
+    """-> list of operations, total under the builtin's semantics (tracked here)."""
+    keys = NS_G_KEYS if kind == 'globals' else NS_L_KEYS
+    fast = dict(NS_L_INIT)
+    own = dict(NS_G_INIT) if kind == 'globals' else {}
+    bound = []
+    ops = []
+    val = [2]
+
+    def fresh_val():
+        val[0] += 1
+        return val[0]
+
+    def href():
+        if bound and rnd.random() < 0.6:
+            return ('var', rnd.choice(bound))
+        if kind == 'locals':
+            own.update(fast)
+        return ('fresh',)
+    menu = ['call'] * 3 + ['set'] * 5 + ['del'] * 1 + ['get'] * 4 + ['getname'] * 3 + ['setname'] * 2 + ['same'] * 2
+    if kind == 'globals':
+        menu += ['isown']
+    while len(ops) < length:
+        o = rnd.choice(menu) if ops else 'call' if rnd.random() < 0.5 else 'set'
+        if o == 'call':
+            h = rnd.randint(0, 1)
+            if kind == 'locals':
+                own.update(fast)
+            if h not in bound:
+                bound.append(h)
+            ops.append(('call', h))
+        elif o == 'set':
+            r, k, v = href(), rnd.choice(keys), fresh_val()
+            own[k] = v
+            ops.append(('set', r, k, v))
+        elif o == 'del':
+            r, k = href(), rnd.choice(keys)
+            own.pop(k, None)
+            ops.append(('del', r, k))
+        elif o == 'get':
+            ops.append(('get', href(), rnd.choice(keys)))
+        elif o == 'getname':
+            cands = sorted(own) if kind == 'globals' else sorted(fast)
+            cands = [k for k in cands if k in keys]
+            if cands:
+                ops.append(('getname', rnd.choice(cands)))
+        elif o == 'setname':
+            k, v = rnd.choice(keys if kind == 'globals' else sorted(fast)), fresh_val()
+            (own if kind == 'globals' else fast)[k] = v
+            ops.append(('setname', k, v))
+        elif o == 'same':
+            r1 = href()
+            ops.append(('same', r1, href()))
+        else:
+            ops.append(('isown', href()))
+    return ops
+
+
+F, V0, V1 = ('fresh',), ('var', 0), ('var', 1)
+# always run, whatever the seed: the shortest trace of every way a result that is not the frame's own
+# mapping can be told from it
+NS_CORE = [
+    ('globals', [('set', F, 'NSV_c', 7), ('getname', 'NSV_c')]),                          # register, read the name
+    ('globals', [('set', F, 'NSV_a', 7), ('get', F, 'NSV_a')]),                           # ... read through a second call
+    ('globals', [('call', 0), ('set', V0, 'NSV_c', 3), ('set', V0, 'NSV_c', 4), ('getname', 'NSV_c')]),
+    ('globals', [('call', 0), ('setname', 'NSV_a', 5), ('get', V0, 'NSV_a')]),            # name assigned after the call
+    ('globals', [('del', F, 'NSV_a'), ('get', F, 'NSV_a')]),
+    ('globals', [('same', F, F)]),
+    ('globals', [('isown', F)]),
+    ('globals', [('call', 0), ('call', 1), ('set', V0, 'NSV_d', 9), ('get', V1, 'NSV_d'), ('same', V0, V1)]),
+    ('locals', [('call', 0), ('setname', 'a', 5), ('call', 1), ('get', V0, 'a')]),        # refreshed by the second call
+    ('locals', [('set', F, 'zz', 6), ('get', F, 'zz')]),
+    ('locals', [('same', F, F)]),
+    ('locals', [('call', 0), ('setname', 'b', 4), ('get', V0, 'b'), ('get', F, 'b'), ('get', V0, 'b')]),
+]
+
+
+def _ns_stmt(kind, o, rnd):
+    call = kind + '()'
+    hv = 'g' if kind == 'globals' else 'd'
+
+    def R(r):
+        return '%s%d' % (hv, r[1]) if r[0] == 'var' else call
+    if o[0] == 'call':
+        return '%s%d = %s' % (hv, o[1], call)
+    if o[0] == 'set':
+        form = rnd.choice(['%s[%r] = %d', '%s.update({%r: %d})', '%s.__setitem__(%r, %d)'])
+        return form % (R(o[1]), o[2], o[3])
+    if o[0] == 'del':
+        return '%s.pop(%r, None)' % (R(o[1]), o[2])
+    if o[0] == 'get':
+        return 'obs.append(%s.get(%r))' % (R(o[1]), o[2])
+    if o[0] == 'getname':
+        return 'obs.append(%s)' % o[1]
+    if o[0] == 'setname':
+        return '%s = %d' % (o[1], o[2])
+    if o[0] == 'same':
+        return 'obs.append(%s is %s)' % (R(o[1]), R(o[2]))
+    return 'obs.append(%s is OWN_NS)' % R(o[1])
+
+
+def ns_programs(rnd, n_globals, n_locals):
+    """-> [(name, kind, ops, source, meta)].  globals(): the operations are grouped in chunks, each chunk
+    under 0..2 functionalised wrappers that execute their body exactly once for n = 1 (so the trace is
+    still the straight-line one); locals(): function body only (inside a functionalised body the frame
+    found is the body function's: known finding C14-ctx-builtin-in-functionalised-body)."""
+    progs = []
+    traces = []
+    for kind, ops in NS_CORE:
+        traces += [(kind, ops, d) for d in ((0, 1, 2) if kind == 'globals' else (0,))]
+    for idx in range(n_globals + n_locals):
+        kind = 'globals' if idx < n_globals else 'locals'
+        traces.append((kind, ns_trace(rnd, kind, rnd.randint(2, 4) if idx % 3 == 0 else rnd.randint(4, 9)), idx % 3))
+    for idx, (kind, ops, maxdepth) in enumerate(traces):
+        core = idx < len(traces) - n_globals - n_locals
+        name = 'ns%d' % idx
+        body = ''
+        depths = []
+        i = 0
+        if kind == 'locals':
+            maxdepth = 0
+        while i < len(ops):
+            j = min(len(ops), i + rnd.randint(1, 3))
+            chunk = ops[i:j]
+            # core traces: every chunk at exactly the given depth; seeded ones: 0..maxdepth
+            wr = [rnd.choice(NS_WRAPPERS) for _ in range(maxdepth if core else rnd.randint(0, maxdepth))]
+            text = ''.join(_ns_stmt(kind, o, rnd) + '\n' for o in chunk)
+            for wn, hdr in reversed(wr):
+                text = hdr + _indent(text, 4)
+            body += text
+            depths.append(len(wr))
+            i = j
+        assigned = sorted(set(o[1] for o in ops if o[0] == 'setname'))
+        src = 'def %s(n):\n' % name
+        if kind == 'globals':
+            if assigned:
+                src += '    global %s\n' % ', '.join(assigned)
+            src += '    g0 = None\n    g1 = None\n'
+        else:
+            src += ''.join('    %s = %d\n' % kv for kv in NS_L_INIT) + '    d0 = None\n    d1 = None\n'
+        src += '    obs = []\n    k = 0\n' + _indent(body, 4) + '    return obs\n'
+        progs.append((name, kind, ops, src, {'depth': max(depths), 'use': kind + '-mapping',
+                                             'writes': any(o[0] in ('set', 'del') for o in ops)}))
+    return progs
+
+
+def _coq_href(r):
+    return '(HVar %d)' % r[1] if r[0] == 'var' else 'HFresh'
+
+
+def coq_ns_op(o):
+    if o[0] == 'call':
+        return 'OCall %d' % o[1]
+    if o[0] == 'set':
+        return 'OSet %s %s %d' % (_coq_href(o[1]), vlib.coq_str(o[2]), o[3])
+    if o[0] == 'del':
+        return 'ODel %s %s' % (_coq_href(o[1]), vlib.coq_str(o[2]))
+    if o[0] == 'get':
+        return 'OGet %s %s' % (_coq_href(o[1]), vlib.coq_str(o[2]))
+    if o[0] == 'getname':
+        return 'OGetName %s' % vlib.coq_str(o[1])
+    if o[0] == 'setname':
+        return 'OSetName %s %d' % (vlib.coq_str(o[1]), o[2])
+    if o[0] == 'same':
+        return 'OSame %s %s' % (_coq_href(o[1]), _coq_href(o[2]))
+    return 'OIsOwn %s' % _coq_href(o[1])
+
+
+def coq_ns_obs(outcome):
+    """outcome of a rendered program -> Gallina `option (list obs)` (None: raised / not a list of observations)."""
+    if outcome[0] != 'value' or type(outcome[1]) is not list:
+        return 'None'
+    out = []
+    for x in outcome[1]:
+        if x is None:
+            out.append('BVal None')
+        elif type(x) is bool:
+            out.append('BBool %s' % vlib.coq_bool(x))
+        elif type(x) is int and 0 <= x < 1000:
+            out.append('BVal (Some %d)' % x)
+        else:
+            return 'None'
+    return 'Some [%s]' % '; '.join(out)
+
+
+def coq_ns_case(i, kind, ops, outcome):
+    f = NS_L_INIT if kind == 'locals' else []
+    o = NS_G_INIT if kind == 'globals' else []
+    return '(%d, %s, %s, %s, [%s], %s)' % (i, vlib.coq_str(kind), coq_kws(f), coq_kws(o),
+                                           '; '.join(coq_ns_op(x) for x in ops), coq_ns_obs(outcome))
+
+
+def _module_delta(mod, before):
+    d = mod.__dict__
+    delta = sorted([(k, repr(d[k])[:60]) for k in d if k not in before or d[k] is not before[k]]
+                   + [(k, '<deleted>') for k in before if k not in d])
+    for k in list(d):
+        if k not in before:
+            del d[k]
+    d.update(before)
+    return delta
+
+
+def run_ns(progs, tmpdir):
+    """Each rendered program as plain Python and converted; observed: the outcome (list of observations or
+    exception type) and what the run changed in the module namespace (restored after every run).
+    -> [(name, kind, ops, source, meta, (plain outcome, delta), (converted outcome, delta))]"""
+    import malt
+    src = ''.join('%s = %d\n' % kv for kv in NS_G_INIT) + 'OWN_NS = globals()\n' + '\n'.join(p[3] for p in progs)
+    path = os.path.join(tmpdir, 'c14_ns_programs.py')
+    with open(path, 'w') as f:
+        f.write(src)
+    spec = importlib.util.spec_from_file_location('c14_ns_programs', path)
+    mod = importlib.util.module_from_spec(spec)
+    sys.modules['c14_ns_programs'] = mod
+    spec.loader.exec_module(mod)
+    results = []
+    for name, kind, ops, psrc, meta in progs:
+        def call(fn_of):
+            before = dict(mod.__dict__)
+            try:
+                out = ('value', fn_of(getattr(mod, name))(1))
+            except Exception as e:   # noqa
+                out = ('raise', type(e).__name__, str(e)[:200])
+            return out, _module_delta(mod, before)
+        orig = call(lambda f: f)
+        conv = call(lambda f: malt.to_graph(f))
+        results.append((name, kind, ops, psrc, meta, orig, conv))
+    return results
+
+
+def run_ns_direct(pb):
+    """globals_in_original_context / locals_in_original_context called from real frames (the function
+    that holds the scope object, and a nested body function that has it as a free variable) against
+    the native builtin called at the same place: identity of results, writes through the result,
+    refresh.  -> [(description, native observation, direct observation)]"""
+    class Scope(object):
+        name = 'fscope'
+    key = 'C14_NS_DIRECT_PROBE'
+    results = []
+
+    def obs_globals(get):
+        g1 = get()
+        g1[key] = 41
+        seen = globals().get(key)               # the module namespace of this driver, natively
+        g2 = get()
+        again = g2.get(key)
+        g2.pop(key, None)
+        gone = key not in globals()
+        globals().pop(key, None)
+        return ('same object on two calls', g1 is g2, 'is the module dict', g1 is globals(),
+                'write visible in the module', seen, 'write visible through a second result', again, 'deletion visible', gone)
+
+    def in_function(native):
+        fscope = Scope()
+        return obs_globals(globals if native else (lambda: pb.globals_in_original_context(fscope)))
+
+    def in_body_function(native):
+        fscope = Scope()
+
+        def loop_body():
+            return obs_globals(globals if native else (lambda: pb.globals_in_original_context(fscope)))
+        return loop_body()
+
+    def locals_in_function(native):
+        fscope = Scope()    # noqa
+        a = 1
+        d1 = locals() if native else pb.locals_in_original_context(fscope)
+        first = d1.get('a')
+        d1['zz'] = 5
+        a = 2
+        d2 = locals() if native else pb.locals_in_original_context(fscope)
+        return ('same object on two calls', d1 is d2, 'value at the first call', first, 'first result after the second call',
+                d1.get('a'), 'key written through the first result, read through the second', d2.get('zz'), a)
+    for desc, f in (('globals() in the function holding the scope object', in_function),
+                    ('globals() in a nested body function (scope object is a free variable)', in_body_function),
+                    ('locals() in the function holding the scope object', locals_in_function)):
+        def call(native):
+            try:
+                return ('value', repr(f(native)))
+            except Exception as e:   # noqa
+                return ('raise', type(e).__name__, str(e)[:120])
+        results.append((desc, call(True), call(False)))
+    return results
+
+
+# ----------------------------------------------------------------------------------------------
 # builtins reached through functools.partial
 def _vrepr(v):
     if callable(v) and getattr(v, '__name__', '<lambda>') != '<lambda>':
@@ -997,7 +1306,9 @@ def _check(run, rnd, thorough, tmp):
                 '(documented names + overload parameter names + a bogus name), truth-tested keywords with all three truth '
                 'behaviours, 5 registry configurations; values: seeded products over ints/floats/bools/strings/bytes/lists/'
                 'tuples/dicts/sets/iterators/generators/logged iterables/user objects with dunders; context builtins: every '
-                'nesting (depth<=2) of for/while/if/if-else around 8 uses of eval/locals/globals + recursion + super in methods; builtins behind 1-2 levels of functools.partial binding leading positionals and keywords, the call site repeating bound keywords with '
+                'nesting (depth<=2) of for/while/if/if-else around 8 uses of eval/locals/globals + recursion + super in methods; '
+                'globals()/locals() mapping traces: seeded sequences of 2-9 operations (call into a variable, write / delete / read through a held or in-place result, read / assign the name itself, identity of two results, identity with the module dict), globals() chunks under 0-2 functionalised wrappers, observed = list of observations + changes left in the module, judged against plain Python and against Namespaces.v; the two *_in_original_context functions on real frames; '
+                'builtins behind 1-2 levels of functools.partial binding leading positionals and keywords, the call site repeating bound keywords with '
                 'other values, direct Python call vs converted_call vs converted driver; three-level hierarchies Base<-Middle(zero-arg super)<-Leaf[<-Leaf2] x 7 placements '
                 '(function body, guarded, for, while, loop+branch, branch+loop, lambda) x instance/class methods x receivers of the defining and '
                 'inheriting classes, through to_graph(driver) and directly through super_in_original_context on real frames; '
@@ -1011,7 +1322,7 @@ def _check(run, rnd, thorough, tmp):
         run.note(tie_msg)
     # 2. proofs
     if tie_msg is None:
-        vlib.standard_proof_step(run, ['Builtins/BuiltinsCheck.vo', 'Builtins/Frames.vo', 'Builtins/Partial.vo'])
+        vlib.standard_proof_step(run, ['Builtins/BuiltinsCheck.vo', 'Builtins/Frames.vo', 'Builtins/Partial.vo', 'Builtins/Namespaces.vo'])
 
     from malt.operators import py_builtins as pb
     from malt.impl import api
@@ -1049,6 +1360,16 @@ def _check(run, rnd, thorough, tmp):
         '; '.join(map(str, py[0])), coq_kws(py[1]), '; '.join(map(str, im[0])), coq_kws(im[1]))
         for i, (pa, pk, ca, ck, py, im) in enumerate(pcases)]
     run.count(len(bcases) + len(dcases) + len(fcases) + len(pcases))
+    # traces over the mapping handed out by globals() / locals(): rendered programs, plain and converted
+    nsprogs = ns_programs(rnd, 150 if thorough else 60, 80 if thorough else 30)
+    try:
+        nsres = run_ns(nsprogs, tmp)
+    except Exception as e:   # noqa
+        import traceback
+        nsres = []
+        failures.append(('namespace-mapping oracle crashed: %s' % e, {'traceback': traceback.format_exc()[-2000:]}, None))
+    ns_impl_terms = [coq_ns_case(i, r[1], r[2], r[6][0]) for i, r in enumerate(nsres)]
+    ns_py_terms = [coq_ns_case(i, r[1], r[2], r[5][0]) for i, r in enumerate(nsres)]
     nonconf = None
     if True:
         hdr0 = ['From Coq Require Import List String Bool.', 'Import ListNotations.',
@@ -1065,7 +1386,18 @@ def _check(run, rnd, thorough, tmp):
             jobs.append(('nonconf', hdr + ['Eval vm_compute in map (fun p => (fst p, List.length (snd p))) (nonconforming table_gen).',
                                            'Eval vm_compute in nonconforming table_gen.'], 'nonconf', None))
         else:
-            vlib.coq_make(['Builtins/BuiltinsCheck.vo', 'Builtins/Frames.vo', 'Builtins/Partial.vo'])
+            vlib.coq_make(['Builtins/BuiltinsCheck.vo', 'Builtins/Frames.vo', 'Builtins/Partial.vo', 'Builtins/Namespaces.vo'])
+        hdr_ns = ['From Coq Require Import List String Bool.', 'Import ListNotations.', 'Require Import MV.Builtins.Namespaces.',
+                  'Local Open Scope string_scope.']
+        if nsres:
+            if tie_msg is None:
+                jobs.append(('ns_impl', hdr_ns + ['Require Import MV.Generated.C14_gen.', 'Definition cases : list nscase := [',
+                                                  ';\n'.join(ns_impl_terms), '].', 'Eval vm_compute in failing_ns ctx_ns_gen cases.'],
+                             'ns-impl', nsres))
+            # the semantics of the builtin itself (spec_run = run Live, by live_is_the_builtin) against plain CPython
+            jobs.append(('ns_py', hdr_ns + ['Definition cases : list nscase := [', ';\n'.join(ns_py_terms), '].',
+                                            'Eval vm_compute in failing_ns [("globals", Live); ("locals", Live)] cases.'],
+                         'ns-python', nsres))
         jobs.append(('bind', hdr0 + ['Definition cases : list bcase := [', ';\n'.join(bterms), '].',
                                      'Eval vm_compute in failing_b cases.'], 'bind', bcases))
         jobs.append(('doc', hdr0 + ['Definition cases : list dcase := [', ';\n'.join(dterms), '].',
@@ -1099,6 +1431,10 @@ def _check(run, rnd, thorough, tmp):
                 elif kind == 'partial':
                     corr_bad.append('partial merge: partial(rec, *%r, **%r)(*%r, **%r): CPython passes %r, converted_call passes %r, '
                                     'model (Partial.v) disagrees with one of them' % (c[0], dict(c[1]), c[2], dict(c[3]), c[4], c[5]))
+                elif kind in ('ns-impl', 'ns-python'):
+                    corr_bad.append('Namespaces.v (%s) disagrees with %s on the trace of\n%s: observed %r' % (
+                        'run <handout of ctx_ns_gen>' if kind == 'ns-impl' else 'semantics of the builtin, spec_run',
+                        'the converted program' if kind == 'ns-impl' else 'plain CPython', c[3], (c[6] if kind == 'ns-impl' else c[5])[0]))
                 elif kind == 'docsig':
                     corr_bad.append('documented signature of %s disagrees with the real builtin on shape args=%d kws=%r: builtin accepts=%r'
                                     % (c[0], len(c[1]), [k for k, _ in c[2]], c[3]))
@@ -1220,6 +1556,47 @@ def _check(run, rnd, thorough, tmp):
     if res:
         run.sample({'program': res[len(res) // 3][1], 'argument': res[len(res) // 3][2]})
 
+    # 4b'. the mapping handed out by globals() / locals(): writes through it, identity, refresh --------
+    nsgroups = {}
+    for name, kind, ops, psrc, meta, orig, conv in nsres:
+        run.count()
+        run.nontriv(('ns', kind, meta['depth'], tuple(sorted(set(o[0] for o in ops))), orig[0][0], conv[0][0]))
+        if orig != conv:
+            nsgroups.setdefault((kind, 'function body' if meta['depth'] == 0 else 'functionalised loop/branch bodies'), []).append(
+                ((0 if meta['writes'] else 1, len(ops)), name, ops, psrc, orig, conv))
+    for (kind, where), fl in sorted(nsgroups.items()):
+        fl.sort(key=lambda f: (f[0], f[1]))
+        nops, name, ops, psrc, orig, conv = fl[0]
+        failures.append(('converted function that uses the mapping returned by %s() (writes through it / reads back / identity; %s) '
+                         'differs from the original' % (kind, where),
+                         {'program': psrc, 'argument': 1, 'module_prelude': ''.join('%s = %d\n' % kv for kv in NS_G_INIT) + 'OWN_NS = globals()\n',
+                          'trace': [list(map(str, o)) for o in ops],
+                          'original': {'outcome': repr(orig[0]), 'changes_left_in_module': orig[1]},
+                          'converted': {'outcome': repr(conv[0]), 'changes_left_in_module': conv[1]},
+                          'also_failing': len(fl) - 1,
+                          'replay': 'save module_prelude + program as a module m, then PYTHONPATH=/repo /venv/bin/python -c '
+                                    '"import malt, m; print(m.%s(1)); print(malt.to_graph(m.%s)(1))"  (restore the module globals in between)'
+                                    % (name, name)}, None))
+    try:
+        ndres = run_ns_direct(pb)
+    except Exception as e:   # noqa
+        import traceback
+        ndres = []
+        failures.append(('namespace direct oracle crashed: %s' % e, {'traceback': traceback.format_exc()[-2000:]}, None))
+    for desc, native, direct in ndres:
+        run.count()
+        run.nontriv(('ns-direct', desc, native[0], direct[0]))
+    ndbad = [d for d in ndres if d[1] != d[2]]
+    if ndbad:
+        desc, native, direct = ndbad[0]
+        failures.append(('py_builtins.%s_in_original_context(fscope) does not hand out what the native builtin does: %s' % (
+            desc.split('(')[0], desc),
+            {'where': desc + '  (tools/props/c14.py run_ns_direct; fscope is a local whose .name is "fscope")',
+             'native_builtin': native, 'in_original_context': direct, 'also_failing': [d[0] for d in ndbad[1:]]}, None))
+    run.extra['namespace_trace_programs'] = len(nsres)
+    if nsres:
+        run.sample({'program': nsres[len(nsres) // 2][3], 'argument': 1})
+
     # 4c. zero-argument super() and the defining class -----------------------------------------------
     try:
         sres = run_super_hier(tmp)
@@ -1272,7 +1649,7 @@ def _check(run, rnd, thorough, tmp):
                               'found no failing input' % (b, nshapes),
                               {'builtin': b, 'broken_theorem': 'overload_forwards_same_call (conforms = false)',
                                'model_shapes': nshapes}, found_input=False)
-    searched = '%d value cases, %d partial cases, %d context programs, three-level super() hierarchies: no failing input that is not a listed known finding' % (len(inputs), len(pin), len(progs))
+    searched = '%d value cases, %d partial cases, %d context programs, %d globals()/locals() mapping traces, three-level super() hierarchies: no failing input that is not a listed known finding' % (len(inputs), len(pin), len(progs), len(nsres))
     if unknown == 0:
         if tie_msg is not None:
             run.violation('translator no longer recognises the source: ' + tie_msg,
@@ -1294,6 +1671,9 @@ def _check(run, rnd, thorough, tmp):
         'user values are never the private sentinel py_builtins.UNSPECIFIED',
         'keyword arguments reach the overload without duplicates (CPython rejects duplicates at the call site)',
         'frames: a frame is modelled by its f_locals; malt\'s own helper frames never bind the scope object under its name',
+        'locals() mapping: CPython <= 3.12 function-frame semantics (one f_locals dictionary per frame, refreshed from the variables '
+        'at every locals() call; checked against plain CPython on every trace); a trace uses one context builtin only (a converted '
+        'globals()/eval()/super() call also refreshes an earlier locals() result, the native ones except eval do not)',
     ]
 
 
